@@ -295,6 +295,18 @@ func Build(s Spec, o *Obs, newMetrics func() service.ServiceMetrics) func() {
 				vrt.Join(rd)
 				cl.Close()
 				finish(cl)
+			case "relay-client-then-gone":
+				// the client's stream turns invalid first (a chunk that fails authentication); only then,
+				// while the target is still sending, the client goes away without reading: both relay
+				// directions fail, the client's one first, and that is the outcome of the connection
+				co.Want, co.WantAuth = "ERR_RELAY_CLIENT", true
+				wire = world.EncodeStream(key, seed, world.Addr(fmt.Sprintf("93.184.216.37:%d", 8000+i)), []byte{0, 0}, world.Pattern(3, 30))
+				wire[len(wire)-5] ^= 0x40
+				cl := world.Dial(from)
+				cl.Send(wire, 0)
+				vrt.Sleep(time.Second)
+				cl.Close()
+				finish(cl)
 			case "client-abort":
 				// the target floods, the client never reads and disappears: the proxy's write to the
 				// client blocks on the full buffer and fails part-way
@@ -390,7 +402,7 @@ func Build(s Spec, o *Obs, newMetrics func() service.ServiceMetrics) func() {
 			}
 		}
 		o.Open = vw.OpenSockets("srv")
-		o.ServeOK = w.ServeReturned && w.RunningAtReturn == 0
+		o.ServeOK = w.ServeReturned && w.RunningAtReturn == 0 && w.UnfinishedAtReturn == 0
 		o.Recovered = hk.RecoveredPanics()
 		for _, l := range hk.Logs() {
 			if l.Msg == "Accept failed. Continuing to listen." {
